@@ -213,10 +213,11 @@ def units(prop, tier):
     def u(meth, state, bs=16, b='bytes', tag=''):
         params = {ARG[meth]: b} if meth in ARG else {}
         uid = 'eax.%s%s%s@bs%d/%s' % (meth, ('[%s]' % b) if meth in ARG else '', tag, bs, state)
-        out.append(pyvc_unit(prop, uid, functools.partial(_reg_with, m(meth), params, bs, _st(state), lean=(tag == '[forbidden]')), [m(meth)]))
+        out.append(pyvc_unit(prop, uid, functools.partial(_reg_with, m(meth), params, bs, _st(state), lean=(tag == '[forbidden]')), [m(meth)],
+                             weight=1 if tag else 4 if meth in ('digest', 'verify') else 2))
 
     def init(bs, b):
-        out.append(pyvc_unit(prop, 'eax.__init__[nonce:%s]@bs%d' % (b, bs), functools.partial(_reg_with, m('__init__'), {'nonce': b}, bs), [m('__init__')]))
+        out.append(pyvc_unit(prop, 'eax.__init__[nonce:%s]@bs%d' % (b, bs), functools.partial(_reg_with, m('__init__'), {'nonce': b}, bs), [m('__init__')], weight=4))
     bufs = ['bytes', 'memoryview']
     if prop == 'C09':
         if quick:
@@ -229,7 +230,7 @@ def units(prop, tier):
                             u(meth, s, bs, b)
     elif prop == 'C10':
         if quick:
-            for meth, s in (('update', 'init'), ('encrypt', 'init'), ('encrypt', 'encrypting'), ('decrypt', 'decrypting'), ('digest', 'init'),
+            for meth, s in (('update', 'init'), ('encrypt', 'init'), ('decrypt', 'decrypting'), ('digest', 'init'),
                             ('digest', 'digested'), ('verify', 'verified')):
                 u(meth, s)
             for meth, s in (('update', 'encrypting'), ('encrypt', 'digested'), ('decrypt', 'encrypting'), ('digest', 'decrypting'), ('verify', 'encrypting'),
